@@ -6,7 +6,7 @@ theorems assume (lean/MdIt/Block.lean: RuleOK, Props/C01.lean: IRuleOK):
 
  block rule  K1 no exception · K2 a miss / a silent call changes nothing (line, tokens, level,
              blkIndent, lineMax, line tables) · K3 a non-silent match ends with
-             startLine < state.line <= endLine · K4 tables, blkIndent, lineMax, level restored on
+             startLine < state.line <= lineMax, beyond endLine only across empty lines · K4 tables, blkIndent, lineMax, level restored on
              return · K6 a silent (terminator) call of a rule that tests parentType sees the value its calling rule pinned · K5 the pushed segment is balanced at the entry level and its maps lie in
              [startLine, state.line)
  inline rule K1 · a miss changes nothing · a match advances pos, keeps level/posMax/src; a silent
@@ -96,8 +96,13 @@ def instrument(md, mon: Monitor, record_loops=True, check_tables=True):
                     mon.viol(f"K2: block rule {name} changed line/tokens on a {'silent call' if silent else 'miss'}", rule=name,
                              input=src, startLine=startLine, silent=silent, result=bool(res))
             else:
-                if not (startLine < state.line <= endLine):
-                    mon.viol(f"K3: block rule {name} matched with state.line={state.line} (start {startLine}, end {endLine})",
+                # a match ends inside the line tables, and beyond endLine only across empty lines (a container whose last
+                # lines are empty returns at the document's next non-empty line: "> > \n> \n\nfoo")
+                ok3 = startLine < state.line <= state.lineMax
+                if ok3 and state.line > endLine:
+                    ok3 = all(state.isEmpty(i) for i in range(endLine, state.line))
+                if not ok3:
+                    mon.viol(f"K3: block rule {name} matched with state.line={state.line} (start {startLine}, end {endLine}, lineMax {state.lineMax})",
                              rule=name, input=src, startLine=startLine)
                 seg = state.tokens[ntok0:]
                 if not _balanced(seg, level0):
